@@ -19,5 +19,6 @@ Numeric == (Len(a) = Len(b) /\ a # b) =>
 DeepestOfChain == IsChain({a, b, c}) =>
                     /\ Deepest({a, b, c}) \in {a, b, c}
                     /\ \A u \in {a, b, c} : IsPrefixTag(u, Deepest({a, b, c}))
-SplitJoin == SplitJob(JoinJob(<<"s", a>>, b)) = << <<"s", a>>, b >>
+\* step paths of 0 (the root step "/" of a bare tool), 1 and 2 segments
+SplitJoin == \A step \in {<<>>, <<"s">>, <<"s", a>>} : SplitJob(JoinJob(step, b)) = <<step, b>>
 =============================================================================
